@@ -274,6 +274,24 @@ func scenarios() []*explore.Scenario {
 	mk("flip-flop", false, 2, 0, "quick", flipflop)
 	mk("flip-flop/faults", true, 2, 1, "quick", flipflop)
 	mk("flip-flop@3", true, 3, 2, "thorough", flipflop)
+	// S2c: exactly one id of the window is left and several requests race for it on one
+	// allocator object; afterwards the process restarts (new object, same member)
+	lastID := func(w *world) ([]string, []func()) {
+		cl := w.st.Client()
+		a := id.NewAllocator(cl, root, "a")
+		return []string{"a1", "a2", "a3", "a'"}, []func(){
+			func() { w.alloc("a", a); w.drain("a", a, 998); w.alloc("a", a); w.alloc("a", a) },
+			func() { w.alloc("a", a) },
+			func() { w.alloc("a", a); w.alloc("a", a) },
+			func() {
+				a2 := id.NewAllocator(cl, root, "a")
+				w.alloc("a", a2)
+				w.alloc("a", a2)
+			},
+		}
+	}
+	mk("last-id-race+restart", false, 2, 0, "quick", lastID)
+	mk("last-id-race+restart@3", true, 3, 1, "thorough", lastID)
 	// S3: three members, leader record absent for a while.
 	three := func(w *world) ([]string, []func()) {
 		cl := w.st.Client()
